@@ -317,6 +317,8 @@ def gen_times(rng, start_tod_us):
     rs = []
     for _ in range(rng.choice([1, 1, 2])):
         a = start_tod_us + rng.choice([5, 20, 45, 90, 200, 600]) * 60 * US + rng.choice([0, 0, 0, 30 * US, 123456, 999999])
+        if rng.random() < 0.2:
+            a = rng.choice([0, 0, 3600 * US * ((start_tod_us // (3600 * US) + 1) % 24)])    # midnight or the next full hour
         kind = rng.random()
         if kind < 0.15:
             b = a                                            # whole day
@@ -442,6 +444,59 @@ def gen_case(rng, tier):
                 read_cost=rng.choice([1, 1, 3, 20, 100]))
 
 
+def _tl(start_us, blocks, actions, dur_h, step_min=10):
+    dur_us = dur_h * 3600 * US
+    bounds = sorted({o for b in blocks + [a['cfg'] for a in actions if a['k'] == 'reconfig']
+                     for o in block_boundaries(b, start_us, dur_us)})
+    pts = set()
+    for b in bounds:
+        pts.update([b - 20_000, b - 1, b + 8_000, b + 60 * US])
+    pts.update(range(step_min * 60 * US, dur_us, step_min * 60 * US))
+    tl = list(actions) + [dict(k='sample', at=p) for p in sorted(pts) if 0 < p < dur_us]
+    tl.sort(key=lambda a: (a['at'], a['k'] != 'sample'))
+    return tl
+
+
+def _td(times=None, dates=None, wds=None, utc=False):
+    return dict(t='td', times=times, dates=dates, wds=wds, utc=utc)
+
+
+def directed():
+    """shapes of earlier findings and of seeded changes; they run first"""
+    out = []
+    # forward jump over midnight while cron sleeps towards an alarm in the 23rd hour
+    st = abs_of(dt.datetime(2024, 6, 15, 22, 57, 17))
+    b = [_td(times=[[[23, 17, 47, 0], [23, 47, 47, 0]]])]
+    out.append(dict(start_us=st, blocks=b, latency=[], read_cost=1,
+                    timeline=_tl(st, b, [dict(k='jump', at=2695 * US, delta=3600 * US)], 8)))
+    out.append(dict(start_us=st, blocks=b, latency=[0, 300], read_cost=1,
+                    timeline=_tl(st, b, [dict(k='jump', at=3750 * US, delta=30 * US)], 8)))
+    st2 = abs_of(dt.datetime(2024, 12, 31, 23, 40, 0))
+    b2 = [_td(times=[[[23, 59, 50, 0], [0, 10, 0, 0]]], dates=[[[12, 31], [1, 1]]]), _td(wds=[1, 2, 3])]
+    out.append(dict(start_us=st2, blocks=b2, latency=[], read_cost=1,
+                    timeline=_tl(st2, b2, [dict(k='jump', at=(19 * 60 + 49) * US + 800000, delta=30 * US)], 30)))
+    # a scheduler without alarms and a clock jump
+    st3 = abs_of(dt.datetime(2025, 3, 1, 0, 0, 0))
+    b3 = [dict(t='ts', span=[[[2025, 2, 28, 23, 30, 0, 0], [2025, 2, 28, 23, 55, 0, 0]]], utc=True)]
+    out.append(dict(start_us=st3, blocks=b3, latency=[], read_cost=1,
+                    timeline=_tl(st3, b3, [dict(k='jump', at=7000 * US, delta=3600 * US)], 6)))
+    # reconfiguration a few microseconds before a boundary of the new configuration
+    st4 = abs_of(dt.datetime(2024, 2, 29, 0, 20, 0))
+    b4 = [_td(times=[[[0, 25, 30, 0], [19, 25, 30, 0]]])]
+    for delta, cost in ((15, 20), (2, 1), (150, 100)):
+        at = 7499_999_000
+        new = _td(times=[[[4, 24, 59, 999000 + delta], [2, 24, 59, 999000 + delta]]])
+        out.append(dict(start_us=st4, blocks=b4, latency=[], read_cost=cost,
+                        timeline=_tl(st4, b4, [dict(k='reconfig', at=at, blk=0, cfg=new)], 6)))
+    # a block that had midnight as an end point is reconfigured to dates/weekdays only
+    st5 = abs_of(dt.datetime(2024, 12, 31, 21, 0, 0))
+    b5 = [_td(times=[[[0, 0, 0, 0], [6, 0, 0, 0]]]), _td(times=[[[22, 0, 0, 0], [0, 0, 0, 0]]])]
+    acts = [dict(k='reconfig', at=600 * US, blk=0, cfg=_td(dates=[[[1, 1], [1, 1]]])),
+            dict(k='reconfig', at=900 * US, blk=1, cfg=_td(wds=[3, 4]))]
+    out.append(dict(start_us=st5, blocks=b5, latency=[], read_cost=1, timeline=_tl(st5, b5, acts, 30)))
+    return out
+
+
 def check(run):
     spec = C07()
     run.rule = ("1..5 TimeDate/TimeSpan blocks (local and UTC scheduler) with random interval sets placed in the "
@@ -460,7 +515,7 @@ def check(run):
                        "wake-up latency and clock-read cost are inputs of the scenario, at most 1.5 ms",
                        "the wall-clock instants of the boundaries near a sample are computed by the harness"]
     n = 40 if run.tier == 'quick' else 600
-    cases = [gen_case(run.rng, run.tier) for _ in range(n)]
+    cases = directed() + [gen_case(run.rng, run.tier) for _ in range(n)]
     for c in cases:
         run.count('blocks_%d' % len(c['blocks']))
         run.count('reconfigs_%d' % sum(1 for a in c['timeline'] if a['k'] == 'reconfig'))
